@@ -29,13 +29,13 @@ Definition pbin_name (o : pbin) : string :=
   match o with
   | PAdd => "Add" | PSub => "Sub" | PMult => "Mult" | PFloorDiv => "FloorDiv" | PMod => "Mod"
   | PLShift => "LShift" | PRShift => "RShift" | PBitAnd => "BitAnd" | PBitOr => "BitOr"
-  | PBitXor => "BitXor"
+  | PBitXor => "BitXor" | PTrueDiv => "Div"
   end%string.
 Definition pcmp_name (o : pcmp) : string :=
   match o with
   | PEq => "Eq" | PNotEq => "NotEq" | PLt => "Lt" | PLtE => "LtE" | PGt => "Gt" | PGtE => "GtE"
   end%string.
-Definition all_pbins := [PAdd; PSub; PMult; PFloorDiv; PMod; PLShift; PRShift; PBitAnd; PBitOr; PBitXor].
+Definition all_pbins := [PAdd; PSub; PMult; PFloorDiv; PMod; PLShift; PRShift; PBitAnd; PBitOr; PBitXor; PTrueDiv].
 Definition all_pcmps := [PEq; PNotEq; PLt; PLtE; PGt; PGtE].
 
 Definition binop_of_name (s : string) : option binop :=
@@ -60,7 +60,15 @@ Inductive itree :=
   | TBin (o : binop) (a b : itree)          (* Binop a o b : i64 *)
   | TProg (p : sprog) (a b : itree).        (* a, b, then the instructions of p, all i64 *)
 
-Record lowcfg := mk_lowcfg { lc_binops : tab; lc_cmps : tab; lc_floordiv : sprog }.
+(* lc_int_truediv_rejected: gen_binop raises a CompilerError for `/` on int operands (probed from
+   the current source on every run; false = the source as found, which uses binop_map["/"]) *)
+Record lowcfg := mk_lowcfg { lc_binops : tab; lc_cmps : tab; lc_floordiv : sprog;
+                             lc_int_truediv_rejected : bool }.
+Definition irop_eff (k : lowcfg) (o : pbin) : option binop :=
+  match o with
+  | PTrueDiv => if lc_int_truediv_rejected k then None else irop_of (lc_binops k) o
+  | _ => irop_of (lc_binops k) o
+  end.
 
 Fixpoint lower (k : lowcfg) (e : pexpr) : option itree :=
   match e with
@@ -72,7 +80,7 @@ Fixpoint lower (k : lowcfg) (e : pexpr) : option itree :=
       | Some ta, Some tb =>
           match o, lc_floordiv k with
           | PFloorDiv, (_ :: _) as p => Some (TProg p ta tb)
-          | _, _ => match irop_of (lc_binops k) o with
+          | _, _ => match irop_eff k o with
                     | Some io => Some (TBin io ta tb)
                     | None => None
                     end
